@@ -88,7 +88,12 @@ def obligations(tier):
     def run_tt(I):
         with stubbed(_tt, svd_interface=make_svd_stub(I["_S"], None, exact=True)):
             return list(_tt.tensor_train(I["X"], list(I["rk"])).factors)
+    def run_tt_class(I):
+        with stubbed(_tt, svd_interface=make_svd_stub(I["_S"], None, exact=True)):
+            return list(_tt.TensorTrain(list(I["rk"])).fit_transform(I["X"]).factors)
     for N in range(2, maxN + 1):
+        add("_tt:TensorTrain.fit_transform", f"N={N}", tt_setup(N), run_tt_class, lambda S, I, r: ([("tt_to_tensor(TensorTrain(rank).fit_transform(X)) ≡ X when every truncated SVD is exact", SP.tt_to_tensor(S, r), I["X"])] if S.name == "sym" else []),
+            dict(order=N, entry="class wrapper"), "exact reconstruction at sufficient rank", assumptions=tt_pre(N))
         add("_tt:tensor_train", f"N={N}", tt_setup(N), run_tt, lambda S, I, r: ([("tt_to_tensor(TT-SVD(X)) ≡ X when every truncated SVD is exact", SP.tt_to_tensor(S, r), I["X"])] if S.name == "sym" else []),
             dict(order=N), "exact reconstruction at sufficient rank", assumptions=tt_pre(N))
     # ---- TT-matrix (2 cores, 3 in thorough)
@@ -106,6 +111,11 @@ def obligations(tier):
         def call(I):
             with stubbed(_tt, svd_interface=make_svd_stub(I["_S"], None, exact=True)):
                 return list(_tt.tensor_train_matrix(I["X"], list(I["rk"])).factors)
+        def call_class(I):
+            with stubbed(_tt, svd_interface=make_svd_stub(I["_S"], None, exact=True)):
+                return list(_tt.TensorTrainMatrix(list(I["rk"])).fit_transform(I["X"]).factors)
+        add("_tt:TensorTrainMatrix.fit_transform", f"d={d}", setup, call_class, lambda S, I, r, d=d: ([("tt_matrix_to_tensor(TensorTrainMatrix(rank).fit_transform(X)) ≡ X when every truncated SVD is exact", SP.tt_matrix_to_tensor(S, r), I["X"])] if S.name == "sym" or d == 1 else []),
+            dict(n_cores=d, entry="class wrapper"), "exact reconstruction at sufficient rank (interleaving transpose as documented)", assumptions=pre)
         add("_tt:tensor_train_matrix", f"d={d}", setup, call, lambda S, I, r, d=d: ([("tt_matrix_to_tensor(TTM-SVD(X)) ≡ X when every truncated SVD is exact", SP.tt_matrix_to_tensor(S, r), I["X"])] if S.name == "sym" or d == 1 else []),
             dict(n_cores=d), "exact reconstruction at sufficient rank (interleaving transpose as documented)", assumptions=pre)
     # ---- tensor ring SVD, every starting mode
@@ -129,6 +139,11 @@ def obligations(tier):
             def call(I, mode=mode):
                 with stubbed(_trs, svd_interface=make_svd_stub(I["_S"], None, exact=True)):
                     return list(_trs.tensor_ring(I["X"], list(I["rk"]), mode=mode).factors)
+            def call_class(I, mode=mode):
+                with stubbed(_trs, svd_interface=make_svd_stub(I["_S"], None, exact=True)):
+                    return list(_trs.TensorRing(list(I["rk"]), mode=mode).fit_transform(I["X"]).factors)
+            add("_tr_svd:TensorRing.fit_transform", f"N={N},mode={mode}", setup, call_class, lambda S, I, r: ([("tr_to_tensor(TensorRing(rank, mode).fit_transform(X)) ≡ X when every truncated SVD is exact", SP.tr_to_tensor(S, r), I["X"])] if S.name == "sym" else []),
+                dict(order=N, mode=mode, entry="class wrapper"), "exact reconstruction at sufficient rank", assumptions=pre)
             add("_tr_svd:tensor_ring", f"N={N},mode={mode}", setup, call, lambda S, I, r: ([("tr_to_tensor(TR-SVD(X)) ≡ X when every truncated SVD is exact", SP.tr_to_tensor(S, r), I["X"])] if S.name == "sym" else []),
                 dict(order=N, mode=mode), "exact reconstruction at sufficient rank", assumptions=pre)
     # ---- bounded stand-in for the numeric bounds and for Tucker exactness
@@ -253,6 +268,8 @@ def obligations(tier):
     obs.append(_BOb(f"{PID}/bounded/native survey of secondary entry points: PARAFAC2 variants, TR-ALS, constrained / randomised CP, masks, sparse component, normalisation exits, CMTF, TT-matrix",
                     "tensorly.decomposition:parafac2+tensor_ring_als+constrained_parafac+randomised_parafac+parafac+non_negative_tucker+non_negative_tucker_hals+coupled_matrix_tensor_3d_factorization+tensor_train_matrix",
                     lambda: _e2e.extras(tier, PID), dict(entry_points=9, clauses="those of this property"), "seed 0; tolerances 1e-6 (errors), 1e-8 (structure); one shared run per process, failures filtered by property", pid=PID))
+    from . import wrappers as _W
+    obs.extend(_W.obligations(PID, select=("Tucker", "TensorTrain", "TensorTrainMatrix", "TensorRing"), only=("rank", "mode", "svd", "init", "fixed_factors")))
     return obs
 
 
